@@ -72,7 +72,17 @@ def geomCmd (f : List String) : Option String :=
     let sameLink := (nodes.zip links).all (fun p => stepsClose (ptol + ratAbs p.1.ideal / 1000000000000) (pathSteps o p.1) p.2)
     -- C07 predicates on the printed geometry
     let linkEnds := ((dots.zip links).zip boxes).all (fun p => linkEndsB o.dir (1 / 1000000 + ratAbs p.1.1 / 1000000000000) (1 + ptol) p.1.1 p.1.2 p.2)
-    let linkHops := (nodes.zip links).all (fun p => (p.2.filter (fun s => match s with | .C _ _ _ => true | _ => false)).length == p.1.layer + 1)
+    -- one curve per layer, and the path crosses every stub of the datum: for each layer nearer the axis than the label's, some step ends at the
+    -- near edge of that layer at the stub's position and the NEXT step is the straight segment to its far edge
+    let linkHops := (nodes.zip links).all (fun p =>
+      (p.2.filter (fun s => match s with | .C _ _ _ => true | _ => false)).length == p.1.layer + 1 &&
+      (((wayPoints o p.1).drop 1).take p.1.layer).all (fun wp =>
+        match wp with
+        | [near, far] =>
+          let tol := ptol + ratAbs p.1.ideal / 1000000000000
+          (p.2.zip (p.2.drop 1)).any (fun ss => ptCloseB tol ss.1.endPt near &&
+            (match ss.2 with | .L q => ptCloseB tol q far | _ => false))
+        | _ => false))
     -- C08 predicates
     let disjoint := !c08 || pairwiseDisjointB boxes
     let side := !c08 || boxes.all (onSideB o.dir (o.layerGap - 1))
